@@ -21,6 +21,8 @@ LEVEL_TEXT = ('Decides from the source: for a @name rule the keyword check runs 
               '@name flag. Acceptance of particular sentences is not decided.')
 TECHNIQUE += '; read-back of the keyword table the generator emits (ast.literal_eval of the emitted literal for keyword sets of 0..40 words compared as sets); per-parse folding clause'
 LEVEL_TEXT += ' Added clauses: the emitted keyword table denotes exactly the declared set for every table size (row breaks included); folding under a per-parse ignorecase is recorded as a known finding (the table is folded at construction).'
+TECHNIQUE += '; the keyword check only accepts or rejects: semantics_call + validator interpreted, identity of the value handed on'
+LEVEL_TEXT += ' Added clause: an accepted name is handed on unchanged, also under ignorecase.'
 LEVEL_NOTE = 'Trusted: dataclasses.replace re-runs __post_init__ (so a per-parse ignorecase=True re-normalises the keyword table).'
 EXPLANATION = ('Static analysis of /repo sources, TatSu not imported. rule_call/semantics_call are executed abstractly with '
                'flags; validate_is_not_keyword is interpreted by the mini-evaluator on model contexts; table writers are '
